@@ -15,11 +15,11 @@ vlib.setup_impl_path()
 logging.disable(logging.CRITICAL)
 import cv2
 import corr_C10 as c10                      # Sim (pool of frames/arrays driven by ops), stand-in codec, checksum
-from corr_C10 import Sim, FakeCv2, enc_json, json_lit, vhash, natl, bytesl, FMT_CODE
+from corr_C10 import Sim, FakeCv2, enc_json, json_lit, vhash, natl, bytesl, strz, FMT_CODE
 from openfilter.filter_runtime.frame import Frame
 from openfilter.filter_runtime.mq import MQ
 
-IMPORTS = 'From OF Require Import Frame.Heap Frame.FrameOps Frame.Codec.'
+IMPORTS = 'From Coq Require Import Uint63.\nFrom OF Require Import Frame.Heap Frame.FrameOps Frame.Codec.'
 CTYPE = 'list op * (option bool * list (str * nat))'
 TOPICS = ['main', 'other', '_hidden', '_x', 'cam1', 'a.b', 'vidéo', '_metrics', 'm']
 JPEG_TOL = 12
@@ -52,7 +52,7 @@ def gen_size(rng, thorough):
         return rng.randint(2, 9), 1
     if r < 0.85:
         return rng.randint(2, 5), rng.randint(2, 5)
-    if r < 0.97:
+    if r < 0.98:
         return rng.randint(6, 12), rng.randint(6, 16)
     return 48, 64                               # 64x48
 
@@ -184,7 +184,7 @@ def oracle(run, case, real):
 
 def case_lit(sim, case):
     oj = case['outs_jpg']
-    return pairl(listl(sim.lits), pairl(optl(oj, booll), listl(pairl(strl(t), natl(f)) for t, f in case['topics'])))
+    return pairl(listl(sim.lits), pairl(optl(oj, booll), listl(pairl(strz(t), natl(f)) for t, f in case['topics'])))
 
 def gen_case(rng, thorough):
     n = rng.choice([0, 1, 1, 2, 2, 3, 4])
@@ -290,14 +290,17 @@ def run_malformed(run, rng, n):
             val = 'e'
             run.count('malformed:%s' % type(e).__name__)
         run.seen(('mal', ms), nontrivial=True)
-        lit = listl(pairl(strl(t), listl(part_lit(p) for p in m)) for t, m in ms)
+        lit = listl(pairl(strz(t), listl(part_lit(p) for p in m)) for t, m in ms)
         cases.append((lit, val, dict(msgs=ms)))
-    run.model_disagree('decode_malformed', IMPORTS, 'run_c09_decode', 'list (str * list (part json))', cases, shard=200)
+    run.model_disagree('decode_malformed', IMPORTS, 'run_c09_decode', 'list (str * list (part json))', cases, shard=400)
 
 def main():
+    import time
     run = vlib.Run('C09')
     rng = run.rng
+    tt = [time.time()]
     run.coq_gate()
+    tt.append(time.time())
     if run.replay:
         case = json.load(open(run.replay))['case']
         for real in (False, True):
@@ -315,7 +318,7 @@ def main():
         corpus.append(dict(ops=[], topics=[], kinds={}, outs_jpg=oj))
         corpus.append(dict(ops=[['frame_arr', None, None, None]], topics=[['_x', 0]], kinds={'_x': 'noimage'}, outs_jpg=oj))
         for fmt, c in (('GRAY', 1), ('BGR', 3), ('RGB', 3)):
-            for (h, w) in ((1, 1), (1, 7), (7, 1), (48, 64)):
+            for (h, w) in ((1, 1), (1, 7), (7, 1), (48, 64) if fmt == 'BGR' else (12, 16)):
                 pix = [min(250, 30 + (i // (w * c)) + ((i // c) % w) + 3 * (i % c)) for i in range(h * w * c)]
                 corpus.append(dict(ops=[['newarr', h, w, c, True, pix, True], ['frame_arr', 0, None, fmt if c == 3 else None]],
                                    topics=[['main', 0]], kinds={'main': 'array-rw-strided'}, outs_jpg=oj))
@@ -325,14 +328,20 @@ def main():
         run_case(run, case, cases)
     for _ in range(run.n(1500, 30000)):
         run_case(run, gen_case(rng, run.thorough), cases)
-    bad = run.model_disagree('roundtrip', IMPORTS, 'run_c09', CTYPE, cases, shard=120)
+    tt.append(time.time())
+    rng.shuffle(cases)                                   # spread the large images over the shards
+    bad = run.model_disagree('roundtrip', IMPORTS, 'run_c09', CTYPE, cases, shard=250)
+    tt.append(time.time())
     if bad:
         c = cases[bad[0]]
         run.notes.append('first disagreement, model in full: ' + run.model_eval(IMPORTS, 'run_c09_full %s' % c[0])[:1500])
-    c = cases[len(corpus) + 3]
+    c = cases[3]
     run.samples.append(dict(family='roundtrip', topics=c[2]['topics'], kinds=c[2]['kinds'], outs_jpg=c[2]['outs_jpg'],
                             ops=[o if o[0] != 'newarr' else o[:5] + ['%d pixels' % len(o[5]), o[6]] for o in c[2]['ops']]))
     run_malformed(run, rng, run.n(400, 4000))
+    tt.append(time.time())
+    run.notes.append('phase seconds: coq gate %.1f, implementation + oracle %.1f, model evaluation %.1f, malformed stream %.1f'
+                     % tuple(b - a for a, b in zip(tt, tt[1:])))
 
     run.rule = ('frame sets of 0-4 topics (normal and hidden names, sometimes one Frame under two topics); per topic: no image / '
                 'GRAY, BGR, RGB arrays 1x1, 1xN, Nx1 .. 64x48, contiguous or strided, writable or read-only / jpg-backed (lazy, '
